@@ -421,7 +421,13 @@ func TestVerifDaemon(t *testing.T) {
 	}
 	live := make(chan struct{}, maxLive)
 	var wg sync.WaitGroup
+	var skipped int64
 	run := func(f func()) {
+		// once a dozen instances have got stuck (each costs a 25 s watchdog) the evidence is in: launch nothing more
+		if atomic.LoadInt64(&st.wedged) >= 12 {
+			atomic.AddInt64(&skipped, 1)
+			return
+		}
 		wg.Add(1)
 		live <- struct{}{}
 		sem <- struct{}{}
@@ -519,7 +525,7 @@ func TestVerifDaemon(t *testing.T) {
 		}
 	}
 	sum := map[string]interface{}{"walks": st.walks, "steps": st.steps, "discarded": st.discarded, "wedged": st.wedged, "random_traces": st.randomTraces,
-		"random_steps": st.randomSteps, "batches": st.batches, "batch_ops": st.batchOps, "errors": st.errors, "error_text": st.errText, "ops": st.ops}
+		"random_steps": st.randomSteps, "batches": st.batches, "batch_ops": st.batchOps, "errors": st.errors, "error_text": st.errText, "ops": st.ops, "skipped": skipped}
 	sb, _ := json.Marshal(sum)
 	fmt.Printf("VERIF-SUMMARY %s\n", sb)
 }
